@@ -138,7 +138,7 @@ func main() {
 				base[o.Rule+" "+o.Construct] = true
 			}
 		}
-		for _, mode := range []string{"rename", "flip"} {
+		for _, mode := range []string{"rename", "flip", "swap", "nest"} {
 			ov, n, err := neutral.Overlay(*repo, mode, nil)
 			r := nres{Mode: mode, Rewrites: n}
 			if err != nil {
